@@ -1237,6 +1237,58 @@ theorem valid_settings_accepted (allMethods : List (List Char)) (settings : List
   · exact hb h1
   · rw [h2] at hb; cases hb
 
+/-- ORDER-INDEPENDENT: the allow-list of one settings entry yields errors iff SOME entry of it is invalid (does not exist,
+or does not carry the version plus a dot as a prefix) — wherever that entry stands, in particular before a valid last one. -/
+theorem methodErrors_ne_nil_iff (allMethods : List (List Char)) (version : List Char) (ms : List (List Char)) :
+    methodErrors allMethods version ms ≠ [] ↔ ∃ m ∈ ms, BadMethod allMethods version m := by
+  constructor
+  · intro h
+    apply Classical.byContradiction
+    intro hn
+    exact h (methodErrors_nil_of_good allMethods version ms (fun m hm hb => hn ⟨m, hm, hb⟩))
+  · intro h
+    exact methodErrors_fold_ne_nil allMethods version ms [] (Or.inr h)
+
+/-- The whole validation, for settings with distinct versions: rejected iff SOME listed method of SOME entry is invalid. -/
+theorem library_settings_rejected_iff_any_invalid (allMethods : List (List Char)) (settings : List LibSettings)
+    (hnd : (settings.map (·.version)).Nodup) :
+    validateSettings allMethods settings ≠ [] ↔
+      ∃ s ∈ settings, ∃ m ∈ s.methods, (m ∉ allMethods ∨ (s.version ++ ['.']).isPrefixOf m = false) := by
+  constructor
+  · intro h
+    apply Classical.byContradiction
+    intro hn
+    apply h
+    apply validateLoop_nil_of_good allMethods settings [] (by simp) hnd
+    intro s hs m hm hb
+    exact hn ⟨s, hs, m, hm, hb⟩
+  · intro h
+    exact validateLoop_ne_nil allMethods settings [] [] (Or.inr h)
+
+/-- Permuting the entries of the allow-list (and the settings entries themselves) does not change the verdict. -/
+theorem library_settings_rejected_perm (allMethods : List (List Char)) (s1 s2 : List LibSettings)
+    (hnd : (s1.map (·.version)).Nodup) (hp : s1.Perm s2) :
+    (validateSettings allMethods s1 ≠ [] ↔ validateSettings allMethods s2 ≠ []) := by
+  have hnd2 : (s2.map (·.version)).Nodup := (hp.map (·.version)).nodup_iff.mp hnd
+  rw [library_settings_rejected_iff_any_invalid allMethods s1 hnd, library_settings_rejected_iff_any_invalid allMethods s2 hnd2]
+  constructor
+  · rintro ⟨s, hs, h⟩; exact ⟨s, hp.mem_iff.mp hs, h⟩
+  · rintro ⟨s, hs, h⟩; exact ⟨s, hp.mem_iff.mpr hs, h⟩
+
+theorem methodErrors_perm (allMethods : List (List Char)) (version : List Char) (m1 m2 : List (List Char))
+    (hp : m1.Perm m2) :
+    (methodErrors allMethods version m1 ≠ [] ↔ methodErrors allMethods version m2 ≠ []) := by
+  rw [methodErrors_ne_nil_iff, methodErrors_ne_nil_iff]
+  constructor
+  · rintro ⟨m, hm, h⟩; exact ⟨m, hp.mem_iff.mp hm, h⟩
+  · rintro ⟨m, hm, h⟩; exact ⟨m, hp.mem_iff.mpr hm, h⟩
+
+/-- the lists of the round-11 change: an unknown method before a valid last one is rejected, like the other order -/
+example : validateSettings ["p.v1.Lib.Get".toList] [⟨"p.v1".toList, ["p.v1.Lib.Purge".toList, "p.v1.Lib.Get".toList], false⟩] ≠ [] ∧
+    validateSettings ["p.v1.Lib.Get".toList] [⟨"p.v1".toList, ["p.v1.Lib.Get".toList, "p.v1.Lib.Purge".toList], false⟩] ≠ [] ∧
+    validateSettings ["p.v1.Lib.Get".toList] [⟨"p.v1".toList, ["p.v1.Arc.Get".toList, "p.v1.Lib.Purge".toList, "p.v1.Lib.Get".toList], true⟩] ≠ [] := by
+  decide
+
 /-- A version listed twice is rejected as well. -/
 theorem duplicate_version_rejected (allMethods : List (List Char)) (s1 s2 : LibSettings)
     (h : s1.version = s2.version) : validateSettings allMethods [s1, s2] ≠ [] := by
